@@ -442,6 +442,8 @@ func c02Sequences(c *run.Ctx) {
 		`{ thing { __typename ... on Item { id } } things { ... on Other { note } ... on Item { kind } } }`,
 		`{ strangers { __typename id } stranger { id } }`,
 		`{ mixedThings { __typename ... on Item { id } ... on Other { note } } }`,
+		`{ tracks { name plays } }`,
+		`{ stamps count }`,
 		`{ self { self { name count } } }`,
 		`mutation { diff(a: 9, b: 4) renamed }`,
 		`mutation { bump(by: 0) }`,
